@@ -106,6 +106,7 @@ type Event struct {
 	Arg            int64
 	Body           []byte `json:",omitempty"`
 	Cut            int    `json:",omitempty"` // cut:<kind>: number of 4-byte words kept
+	Run            int    `json:",omitempty"` // close-run: number of connections closed in a row
 	Split          int    `json:",omitempty"` // > 0: the frame reaches the client in two TCP segments, cut after that many bytes (mod length)
 }
 
@@ -125,6 +126,15 @@ func build(s scen.Source, events []Event) *scen.Scenario {
 		case "close":
 			conns++
 			steps = append(steps, scen.Step{Op: "close"}, scen.Step{Op: "await-reconnect", N: conns})
+		case "close-run":
+			// the server (restarting, or a balancer without backends) closes Run connections in a row, each as soon as the
+			// client has opened it; then it stays up
+			conns++
+			steps = append(steps, scen.Step{Op: "close"}, scen.Step{Op: "await-reconnect", N: conns})
+			for k := 1; k < ev.Run; k++ {
+				conns++
+				steps = append(steps, scen.Step{Op: "close-latest"}, scen.Step{Op: "await-reconnect", N: conns})
+			}
 		case "new-session":
 			salt++
 			steps = append(steps, scen.Step{Op: "new-session", Salt: salt})
@@ -167,7 +177,7 @@ func build(s scen.Source, events []Event) *scen.Scenario {
 			}
 			steps = append(steps, scen.Step{Op: "push", Push: p})
 		}
-		steps = append(steps, scen.Step{Op: "probe", Retry: ev.Kind == "close"})
+		steps = append(steps, scen.Step{Op: "probe", Retry: ev.Kind == "close" || ev.Kind == "close-run"})
 	}
 	sc.RPC.Steps = steps
 	return sc
@@ -186,7 +196,7 @@ func judge(sc *scen.Scenario, events []Event, res *scen.Result, runErr error) (s
 	if res.Stall != nil {
 		for _, n := range res.Notes {
 			if strings.Contains(n, "no reconnection") && (res.Stall.Verdict == "IDLE" || res.Stall.Verdict == "STALL") {
-				return "violation", fmt.Errorf("the server closed the connection and the client did not reconnect (receive loop %s at %s)", res.Stall.Verdict, res.Stall.LoopAt)
+				return "violation", fmt.Errorf("the server closed the connection and went on listening; the client did not reconnect within 3 s (%s; receive loop %s at %s)", n, res.Stall.Verdict, res.Stall.LoopAt)
 			}
 		}
 		if res.Stall.Verdict == "STALL" {
@@ -262,6 +272,9 @@ func genEvents(t *rapid.T) []Event {
 		if rapid.IntRange(0, 3).Draw(t, "split") == 0 {
 			ev.Split = rapid.IntRange(1, 400).Draw(t, "splitat")
 		}
+		if ev.Kind == "close" && rapid.IntRange(0, 2).Draw(t, "closerun") == 0 {
+			ev.Kind, ev.Run = "close-run", rapid.SampledFrom([]int{2, 3, 6, 7, 8}).Draw(t, "run")
+		}
 		if ev.Kind == "schema-object" {
 			var d *tlx.Def
 			if rapid.Bool().Draw(t, "mtproto-def") {
@@ -298,6 +311,9 @@ func evaluate(sc *scen.Scenario, events []Event) error {
 	nt := false
 	for _, ev := range events {
 		cls = append(cls, "event:"+ev.Kind)
+		if ev.Run >= 6 {
+			cls = append(cls, "event:>=6-connections-closed-in-a-row")
+		}
 		if ev.Kind != "pong" && ev.Kind != "ack" {
 			nt = true
 		}
@@ -362,7 +378,7 @@ func TestC16(t *testing.T) {
 		nsh, idx := hx.NShards(), 0
 		var n int64
 		seenKind := map[string]bool{}
-		for _, k := range eventKinds {
+		for _, k := range append([]string{"close-run"}, eventKinds...) {
 			if seenKind[k] || k == "schema-object" {
 				continue
 			}
@@ -382,6 +398,9 @@ func TestC16(t *testing.T) {
 				}
 				ev := variant
 				ev.Kind, ev.Arg = k, int64(idx)<<8
+				if k == "close-run" {
+					ev.Run = 7
+				}
 				if strings.HasPrefix(k, "cut:") {
 					ev.Gzip = false
 					ev.Cut = 1 + (idx % 5) // together with the four wrappings every short prefix occurs
